@@ -105,6 +105,8 @@ package api
 // of what the stream hands back).
 //@ pred batchShape(ms []outputstream.Message) = forall k int :: 0 <= k && k < len(ms) ==> ms[k].Id.Id == ms[0].Id.Id && ms[k].Id.Reply == k + 1
 //@ func outputToRobustMessages
+//@   modifies
+//@   ensures fresh: fresh(result)
 //@   ensures same: len(result) == len(msgs) && (forall k int :: 0 <= k && k < len(msgs) ==> result[k] != nil && result[k].Id == msgs[k].Id)
 //@   loop range msgs
 //@     invariant len(result) == len(msgs) && allocated(result) && !samearray(result, msgs) && (forall k int :: 0 <= k && k <= rangeindex ==> result[k] != nil && allocated(result[k]) && result[k].Id == msgs[k].Id)
